@@ -362,6 +362,26 @@ def laws_sweep(args):
                         fails.append(dict(kind=f'law {nm}', doc=dlabel, A=a, B=b, namespaces=nsname, got=len(got), expected=len(want_)))
             except Exception as ex:
                 fails.append(dict(kind='law-raises', doc=dlabel, A=a, B=b, error=f'{type(ex).__name__}: {ex}'))
+        # forgiving lists: an alternative of :is() / :where() that is empty or ends in a dangling combinator contributes nothing, so the
+        # union law reads  :is(<nothing>, B) == :is(B)  - also when the dropped alternative is not the first one
+        dangling = ['', 'div >', 'p +', 'li ~', 'span > i +']
+        for b in sels[:: max(1, len(sels) // (12 if tier == 'quick' else 60))]:
+            base = SS(f':is({b})')
+            if base is None:
+                continue
+            for d in dangling:
+                for fn in (':is', ':where'):
+                    for text in (f'{fn}({d}, {b})', f'{fn}({b}, {d})', f'{fn}({d}, {b}, {d})'):
+                        evals += 1
+                        distinct.add((text,))
+                        got = SS(text)
+                        if got is not None and got != base:
+                            fails.append(dict(kind='law forgiving alternative adds or removes results', doc=dlabel, selector=text, B=b, namespaces=nsname,
+                                              got=len(got), expected=len(base)))
+                        neg = SS(f':not({text})')
+                        want_neg = [x for x in SS('*') if x not in set(base)] if SS('*') is not None else None
+                        if neg is not None and want_neg is not None and neg != want_neg:
+                            fails.append(dict(kind='law :not() of a forgiving list', doc=dlabel, selector=f':not({text})', namespaces=nsname))
     return evals, len(distinct), fails[:20]
 
 
